@@ -490,6 +490,9 @@ fn run_in(case: &C06Case, exec: &mut Exec) -> Result<CaseInfo, Fail> {
     let hscript = format!("{{run: {{|frame|\n      if $frame.topic != \"look\" {{ return }}\n      {report}\n    }}}}");
     let cscript = format!("{{run: {{|frame|\n      {report}\n    }}}}");
     let hreg = must("register spy", exec.append(&spec("spy.register", b, None), Some(hscript.as_bytes())))?;
+    // the byte-identical script is first defined in A as well: a definition (or anything
+    // prepared from its content) must not be shared between contexts
+    must("define spy command in A", exec.append(&spec("spyc.define", a, None), Some(cscript.as_bytes())))?;
     must("define spy command", exec.append(&spec("spyc.define", b, None), Some(cscript.as_bytes())))?;
     // wait until the handler is up, then make both look
     let deadline = Instant::now() + Duration::from_secs(20);
